@@ -57,6 +57,55 @@ Secp.prime_P SecpPrime
 Secp.prime_N SecpPrime
 Secp.iso_on_curve SecpI
 Secp.sswu_on_curve SecpM
+SecpSMT.glue_add SecpSMT
+SecpSMT.glue_sub SecpSMT
+SecpSMT.glue_neg SecpSMT
+SecpSMT.glue_mul SecpSMT
+SecpSMT.glue_to SecpSMT
+SecpSMT.glue_from SecpSMT
+SecpSMT.glue_zero SecpSMT
+SecpSMT.glue_inj SecpSMT
+SecpSMT.fofint_mod SecpSMT
+SecpSMT.fint_range SecpSMT
+SecpSMT.fofint_fint SecpSMT
+SecpSMT.fofint_wide SecpSMT
+SecpSMT.fermat_inv SecpSMT
+SecpSMT.sqrt_ratio_one SecpSMT
+SecpSMT.glue_add_n SecpSMT
+SecpSMT.glue_sub_n SecpSMT
+SecpSMT.glue_mul_n SecpSMT
+SecpSMT.glue_to_n SecpSMT
+SecpSMT.glue_from_n SecpSMT
+SecpSMT.glue_zero_n SecpSMT
+SecpSMT.glue_inj_n SecpSMT
+SecpSMT.nofint_mod SecpSMT
+SecpSMT.nint_range SecpSMT
+SecpSMT.nofint_fint SecpSMT
+SecpSMT.nofint_wide SecpSMT
+SecpSMT.fermat_inv_n SecpSMT
+SecpSMT.rcb_add SecpSMT
+SecpSMT.rcb_dbl SecpSMT
+SecpSMT.pt_neg SecpSMT
+SecpSMT.pt_identity_iff SecpSMT
+SecpSMT.pt_eq_iff SecpSMT
+SecpSMT.gneg_zero SecpSMT
+SecpSMT.valid_identity SecpSMT
+SecpSMT.bit_def SecpSMT
+SecpSMT.bit_limb SecpSMT
+SecpSMT.hi_step SecpSMT
+SecpSMT.hi_top SecpSMT
+SecpSMT.hi_zero SecpSMT
+SecpSMT.smul_add SecpSMT
+SecpSMT.smul_zero SecpSMT
+SecpSMT.smul_one SecpSMT
+SecpSMT.pt_of_affine SecpSMT
+SecpSMT.aff_coords SecpSMT
+SecpSMT.aff_of SecpSMT
+SecpSMT.neg_parity SecpSMT
+SecpSMT.fneg_sq SecpSMT
+SecpSMT.poly_nonzero SecpSMT
+SecpSMT.sq_zero SecpSMT
+SecpSMT.firstnz_step SecpSMT
 "
 ALLOWED_AXIOMS=" propext Classical.choice Quot.sound "
 
